@@ -167,11 +167,11 @@ func fuzzTarget(f *testing.F, decs []string) {
 	})
 }
 
-func FuzzJSONUnmarshal(f *testing.F)       { fuzzTarget(f, []string{DJSONValue}) }
-func FuzzJSONType(f *testing.F)            { fuzzTarget(f, []string{DJSONType, DJSONTypeDirect}) }
-func FuzzJSONImpliedType(f *testing.F)     { fuzzTarget(f, []string{DJSONImplied}) }
-func FuzzMsgpackUnmarshal(f *testing.F)    { fuzzTarget(f, []string{DMsgpackValue}) }
-func FuzzMsgpackImpliedType(f *testing.F)  { fuzzTarget(f, []string{DMsgpackImplied}) }
+func FuzzJSONUnmarshal(f *testing.F)      { fuzzTarget(f, []string{DJSONValue}) }
+func FuzzJSONType(f *testing.F)           { fuzzTarget(f, []string{DJSONType, DJSONTypeDirect}) }
+func FuzzJSONImpliedType(f *testing.F)    { fuzzTarget(f, []string{DJSONImplied}) }
+func FuzzMsgpackUnmarshal(f *testing.F)   { fuzzTarget(f, []string{DMsgpackValue}) }
+func FuzzMsgpackImpliedType(f *testing.F) { fuzzTarget(f, []string{DMsgpackImplied}) }
 
 var fuzzDecoders = map[string][]string{
 	"FuzzJSONUnmarshal":      {DJSONValue},
